@@ -19,6 +19,7 @@ EXPLANATION = (
     "lambda pipeline is a ValueError (exceptions: enumerated, with reason) and every assert is either an internal node-kind invariant or "
     "enumerated; (R5) the type environment handed to a nested lambda is a new dict: nothing a query binds is visible to a later query."
     " In R3 the dictionary guard is exact in both directions (nothing but uniqueness, str, isidentifier and not iskeyword excludes a dictionary from being typed); in R4 package code called inside a raise expression must not be able to fail before the refusal arrives."
+    " (R11) the node type rules of C08.R1 are re-evaluated: they decide which filters Where accepts and which conditionals are refused."
 )
 NOT_DECIDED = "structural identity of output and input for every expression of the grammar (needs enumeration against the running code); implicit exceptions raised inside stdlib calls."
 
